@@ -2,7 +2,7 @@ SPECIFICATION Spec
 CONSTANTS
   Threads = {1, 2, 3}
   Funcs = {"f", "g"}
-  MaxAttempts = 2
+  MaxAttempts = 1
   ClearOnFail = TRUE
   UseLock = TRUE
 INVARIANT CtxClearedWhenIdle
